@@ -93,6 +93,15 @@ def scene_rows(kind):
             if i % 2:
                 rows.append(['a', t, 4000, 2])
         return rows, {'MSA': 5000, 'MAX_HITS_OKTA0': 1}
+    if kind in ('msabuf', 'msaonly'):
+        # clouds whose base lies between the MSA and the MSA plus the hit buffer: kept in the tables, flagged, not reported
+        rows = []
+        for i in range(12):
+            t = -15.0 * (11 - i)
+            if kind == 'msabuf':
+                rows.append(['a', t, 1000, 1])
+            rows.append(['a', t, 4000 + (i % 2), 2 if kind == 'msabuf' else 1])
+        return rows, {'MSA': 3500, 'MSA_HIT_BUFFER': 1500, 'MAX_HITS_OKTA0': 1}
     if kind == 'twodecks':          # the scene on which the pinned tree let a refused find_groups rewrite group_id
         rows = [['a', -15.0 * i, 2400 + (i % 3), 1] for i in range(40)] + [['a', -15.0 * i, 2600 + (i % 3), 2] for i in range(40)]
         return rows, {}
@@ -120,12 +129,12 @@ def run(out, tier, seed):
                 seen.add(k)
                 uniq.append(w)
         walks_by_ng[ng] = uniq
-    scenes_ = [('mergesplit', 'some'), ('twodecks', 'some'), ('simple', 'some'), ('allnan', 'zero')]
+    scenes_ = [('mergesplit', 'some'), ('twodecks', 'some'), ('simple', 'some'), ('msabuf', 'some'), ('msaonly', 'some'), ('allnan', 'zero')]
     descs = []
     for kind, ng in scenes_:
         rows, prms = scene_rows(kind)
         ws = walks_by_ng[ng]
-        if tier == 'quick' and kind in ('twodecks', 'simple'):
+        if tier == 'quick' and kind in ('twodecks', 'simple', 'msabuf', 'msaonly'):
             ws = [w for w in ws if len(w) <= 2] + rng.sample([w for w in ws if len(w) > 2], 250)
         for i, w in enumerate(ws):
             descs.append({'family': 'F6walk', 'name': f'walk:{kind}:{i}', 'rows': rows, 'prms': prms, 'indomain': True,
